@@ -212,10 +212,12 @@ PARTIAL = {
     'C10': ['joint safety under membership change (C10_safety_under_change_full) is not proved on the model of the code: gate, one '
             'pending change, member set = fold of the log, single-change majorities intersect are theorems about it; it is FALSE '
             'for a joiner whose start list is inconsistent with the log it replays (known findings KF-C10-1: re-used address, '
-            'KF-C10-2: list read during a pending change; witnesses in harness/raft_scenarios.py, refutations in Props/C10m.v); '
-            'under the discipline D1-D4 of DESIGN 16.5 it is proved for the abstract Raft with membership coq/AbstractM '
-            '(Props/C10m.v), which is not tied to the model of the code by a refinement yet; dynamic membership together with '
-            'journal files and member restarts is outside the generators'],
+            'KF-C10-2: list read during a pending change; witnesses in harness/raft_scenarios.py, refutations in Props/C10m.v) '
+            'and for a joiner that takes a snapshot before it is a member (KF-C10-3: the snapshot lists the joiner; found by the '
+            'refinement of the snapshot fragment, Raft/RefineM2Finding.v, DESIGN 17.1); under the discipline D1-D4 of DESIGN 16.5 '
+            'it is proved for the abstract Raft with membership coq/AbstractM (Props/C10m.v), to which the model of the code with '
+            'dyn = true is tied by a refinement for a fragment (Props/TierCM*.v: no dump files, voters never restart); dynamic '
+            'membership together with journal files and member restarts is outside the generators'],
     'C12': [],
     'C18': ['non-interference of read-only nodes is refuted in one respect (a voter whose only connection is an observer starts '
             'elections: C18_noninterference_refuted) and proved for the leader phase; what the property states (no vote, no leadership, '
